@@ -527,14 +527,23 @@ def tail_table(fn):
                 out[(Ea, Eb)] = ("fallthrough",)
             except dtable._Stop as st:
                 e = st.payload[0]
-                v = int_of(e)
-                if v is not None:
-                    out[(Ea, Eb)] = ("const", v)
-                else:
-                    try:
-                        out[(Ea, Eb)] = ("const", int(r.truth(e)))
-                    except (dtable.Undecidable, dtable._Need):
-                        out[(Ea, Eb)] = ("expr", e)
+
+                def val(x, depth=0):
+                    x0 = strip_casts(x)
+                    while x0 is not None and x0["k"] == "ParenExpr":
+                        x0 = strip_casts(kids(x0)[0])
+                    if x0 is not None and x0["k"] == "ConditionalOperator" and depth < 4:
+                        return val(kids(x0)[1] if r.truth(kids(x0)[0]) else kids(x0)[2], depth + 1)
+                    v_ = int_of(x0)
+                    if v_ is not None:
+                        return ("const", v_)
+                    if (x0.get("ty") or "") == "bool":
+                        return ("const", int(r.truth(x0)))
+                    raise dtable.Undecidable("value")
+                try:
+                    out[(Ea, Eb)] = val(e)
+                except (dtable.Undecidable, dtable._Need):
+                    out[(Ea, Eb)] = ("expr", e)
             except dtable._Need as nd:
                 raise dtable.Undecidable("%s: unknown atom %s" % (fn.loc, nd.key))
     return out, loops[0], who
